@@ -179,7 +179,12 @@ class _SVD:
                 "solver": "lobpcg",
                 "random_state": self.random_state,
             }
-            U, s, VT = self._svd(X, complex_svd, solver_kwargs)
+            # lobpcg stops on an absolute residual: decompose the data scaled to unit
+            # magnitude so that the accuracy does not depend on the units of X
+            scale = float(abs(X).max())
+            scale = scale if np.isfinite(scale) and scale > 0 else 1.0
+            U, s, VT = self._svd(X / scale, complex_svd, solver_kwargs)
+            s = s * scale
             idx_sort = np.argsort(s)[::-1]
             U = U[:, idx_sort]
             s = s[idx_sort]
